@@ -33,7 +33,12 @@ Kinds ==
     [k |-> "CreateField", op |-> "", n |-> 3], [k |-> "Mid", op |-> "", n |-> 4], [k |-> "MethodCall", op |-> "", n |-> 2],
     [k |-> "BufferData", op |-> "", n |-> 0], [k |-> "Uuid", op |-> "", n |-> 0], [k |-> "ResourceTemplate", op |-> "", n |-> 0],
     [k |-> "Field", op |-> "", n |-> 0], [k |-> "Mutex", op |-> "", n |-> 0], [k |-> "Acquire", op |-> "", n |-> 0],
-    [k |-> "Release", op |-> "", n |-> 0], [k |-> "Eisa", op |-> "", n |-> 0], [k |-> "Ones", op |-> "", n |-> 0]>> \o
+    [k |-> "Release", op |-> "", n |-> 0], [k |-> "Eisa", op |-> "", n |-> 0], [k |-> "Ones", op |-> "", n |-> 0],
+    \* one more child per encoded-size class of the leaf kinds (a child may take 1, 2, 3, 5 or 9 bytes; a parent that
+    \* computes its length instead of measuring it must get each right)
+    [k |-> "EisaWord", op |-> "", n |-> 0], [k |-> "IntByte", op |-> "", n |-> 0], [k |-> "IntDWord", op |-> "", n |-> 0],
+    [k |-> "StrEmpty", op |-> "", n |-> 0], [k |-> "PathRoot2", op |-> "", n |-> 0], [k |-> "Path3", op |-> "", n |-> 0],
+    [k |-> "BufferEmpty", op |-> "", n |-> 0], [k |-> "PackageEmpty", op |-> "", n |-> 0], [k |-> "FieldWidths", op |-> "", n |-> 0]>> \o
   [i \in 1..Len(BinOps) |-> [k |-> "Bin", op |-> BinOps[i], n |-> 3]] \o
   [i \in 1..Len(CmpOps) |-> [k |-> "Cmp", op |-> CmpOps[i], n |-> 2]] \o
   [i \in 1..Len(UnOps) |-> [k |-> "Un", op |-> UnOps[i], n |-> 1]] \o
@@ -69,6 +74,17 @@ Mk(KD, c) ==
     [] KD.k = "Release" -> [t |-> KD.k, path |-> P2]
     [] KD.k = "Eisa" -> [t |-> KD.k, s |-> <<80, 78, 80, 48, 65, 48, 56>>]
     [] KD.k = "Ones" -> [t |-> "Ones"]
+    [] KD.k = "EisaWord" -> [t |-> "Eisa", s |-> <<80, 78, 80, 48, 48, 48, 48>>]          \* "PNP0000": the id compresses to a word
+    [] KD.k = "IntByte" -> [t |-> "Int", ty |-> "u32", v |-> <<66, 0, 0, 0>>]
+    [] KD.k = "IntDWord" -> [t |-> "Int", ty |-> "usize", v |-> <<1, 2, 3, 4, 0, 0, 0, 0>>]
+    [] KD.k = "StrEmpty" -> [t |-> "Str", s |-> <<>>, owned |-> TRUE]
+    [] KD.k = "PathRoot2" -> [t |-> "Path", s |-> <<92, 65, 66, 95, 95, 46, 67, 68, 95, 95>>]
+    [] KD.k = "Path3" -> [t |-> "Path", s |-> <<65, 95, 95, 95, 46, 66, 95, 95, 95, 46, 67, 95, 95, 95>>]
+    [] KD.k = "BufferEmpty" -> [t |-> "BufferData", d |-> <<>>]
+    [] KD.k = "PackageEmpty" -> [t |-> "Package", ch |-> <<>>]
+    [] KD.k = "FieldWidths" -> [t |-> "Field", path |-> P1, access |-> "Any", lock |-> "NoLock", update |-> "Preserve",
+                               fields |-> <<[k |-> "named", name |-> <<70, 48, 48, 49>>, bits |-> 4095], [k |-> "reserved", bits |-> 63],
+                                            [k |-> "named", name |-> <<70, 48, 48, 50>>, bits |-> 1048575]>>]
     [] KD.k = "Bin" -> [t |-> KD.k, op |-> KD.op, target |-> c[1], a |-> c[2], b |-> c[3]]
     [] KD.k = "Cmp" -> [t |-> KD.k, op |-> KD.op, l |-> c[1], r |-> c[2]]
     [] KD.k = "Un" -> [t |-> KD.k, op |-> KD.op, a |-> c[1]]
